@@ -604,6 +604,8 @@ type sweepCase struct {
 	HB       string `json:"hb"`
 	Method   string `json:"method"` // "0" allowed, "1" not allowed, "" absent
 	Minimal  bool   `json:"minimal_tags"`
+	Min, Max int    `json:"-"` // heartbeat limits of the accepting session (0,0 = the default 5..30)
+	Limits   string `json:"limits,omitempty"`
 }
 
 var sweepHBs = []string{"-1", "0", "1", "4", "5", "6", "29", "30", "31", "61", "3600", "86400", "2147483647", "2147483648", "4294967296", "4294967301",
@@ -611,7 +613,11 @@ var sweepHBs = []string{"-1", "0", "1", "4", "5", "6", "29", "30", "31", "61", "
 	"27670116115", "36893488148", "36893488153", "9223372036854775807", "9223372036854775808", "18446744073709551621"}
 
 func sweepRun(prop string, c sweepCase) (string, string) {
-	w := newWorld(wcfg{Role: "acc", Buf: 10, HbMin: 5, HbMax: 30, MinimalTags: c.Minimal})
+	lo, hi := 5, 30
+	if c.Limits != "" {
+		fmt.Sscanf(c.Limits, "%d..%d", &lo, &hi)
+	}
+	w := newWorld(wcfg{Role: "acc", Buf: 10, HbMin: lo, HbMax: hi, MinimalTags: c.Minimal})
 	fields := []string{}
 	if c.Method != "" {
 		fields = append(fields, "98="+c.Method)
@@ -620,7 +626,7 @@ func sweepRun(prop string, c sweepCase) (string, string) {
 	w.in(w.msg("A", fields...))
 	outs := w.take()
 	hb, err := strconv.Atoi(c.HB)
-	acceptable := err == nil && hb >= 5 && hb <= 30 && c.Method == "0"
+	acceptable := err == nil && hb >= lo && hb <= hi && c.Method == "0"
 	det := func(f string, a ...any) string {
 		return fmt.Sprintf(f, a...) + fmt.Sprintf(" | Logon 108=%s 98=%q minimal-tags=%v IsLogged=%v outs=[%s]", c.HB, c.Method, c.Minimal, w.s.IsLogged(), outsStr(outs))
 	}
@@ -632,7 +638,7 @@ func sweepRun(prop string, c sweepCase) (string, string) {
 	}
 	if prop == "C06" {
 		if w.s.IsLogged() {
-			return "sweep:logged-after-logon-outside-limits", det("limits 5..30, allowed method 0")
+			return "sweep:logged-after-logon-outside-limits", det("limits %d..%d, allowed method 0", lo, hi)
 		}
 		if len(outs) != 1 || mtype(outs[0].Msg) != "3" {
 			return "sweep:refused-logon-not-answered-by-one-reject", det("")
@@ -664,7 +670,7 @@ func runLogonSweep(R *vlib.Out, prop string) {
 		R.Eval()
 		sig, d, steps := execBody(func() (string, string) { return sweepRun(prop, c) })
 		R.Transitions += int64(steps)
-		key := fmt.Sprintf("sweep/%s/%q/%v", c.HB, c.Method, c.Minimal)
+		key := fmt.Sprintf("sweep/%s/%q/%v/%s", c.HB, c.Method, c.Minimal, c.Limits)
 		R.State(key)
 		R.ClassU(key)
 		R.Outcome("sweep")
@@ -679,6 +685,15 @@ func runLogonSweep(R *vlib.Out, prop string) {
 		return
 	}
 	unit := 0
+	// limits that admit exactly one interval (Min = Max)
+	for _, lim := range []string{"30..30", "1..1"} {
+		for _, hb := range []string{"0", "1", "2", "29", "30", "31"} {
+			unit++
+			if vlib.Mine(unit) {
+				one(sweepCase{Scenario: "logon-sweep", HB: hb, Method: "0", Limits: lim})
+			}
+		}
+	}
 	for _, minimal := range []bool{false, true} {
 		for _, method := range []string{"0", "1", ""} {
 			for _, hb := range sweepHBs {
